@@ -64,6 +64,7 @@ class Ctx:
                 if isinstance(d, nix.RangeDimension) and self.rdim is None:
                     self.rdim = d
         self.feat = first(self.tag.features) if self.tag is not None else None
+        self.da9 = b.data_arrays["nine"] if (b is not None and "nine" in b.data_arrays) else None
         self.autonames = True if (b is not None and "newmt-positions" in b.data_arrays and "newmt-extents" in b.data_arrays) else None
 
 
@@ -254,6 +255,11 @@ fault("MultiTag.extents", "array-of-another-block", "mtag", "foreign")(lambda c:
 fault("Tag.create_feature", "array-of-another-block", "tag", "foreign")(lambda c: c.tag.create_feature(c.foreign, nix.LinkType.Untagged))
 fault("Block.create_tag", "position-as-numpy-int-array", "b", retry=lambda c: c.b.create_tag("newtag", "t", [0.0]))(
     lambda c: c.b.create_tag("newtag", "t", np.array([1, 2], dtype=np.int8)))
+# the tenth descriptor of an array is refused: the nine that exist stay exactly as they are
+fault("DataArray.append_set_dimension", "tenth-descriptor-non-string-labels", "da9")(lambda c: c.da9.append_set_dimension([1, 2]))
+fault("DataArray.append_range_dimension", "tenth-descriptor-unordered-ticks", "da9")(lambda c: c.da9.append_range_dimension([3.0, 1.0]))
+fault("DataArray.append_sampled_dimension", "tenth-descriptor-non-numeric-interval", "da9")(lambda c: c.da9.append_sampled_dimension("x"))
+fault("DataArray.append_range_dimension_using_self", "tenth-descriptor-bad-index", "da9")(lambda c: c.da9.append_range_dimension_using_self([0, 0]))
 # multi-row / multi-part calls whose LATER part is invalid: nothing of the earlier part may stay behind
 GOODROW = (7, "g", 7.5)
 fault("DataFrame.write_rows", "valid-row-then-row-out-of-range", "df")(lambda c: c.df.write_rows([GOODROW, GOODROW], [0, 99]))
@@ -271,6 +277,9 @@ fault("DataFrame.write_rows", "negative-index-below-first-row", "df")(lambda c: 
 fault("DataFrame.write_rows", "negative-index-twice-below", "df")(lambda c: c.df.write_rows([GOODROW], [-2 * len(c.df)]))
 fault("DataFrame.write_rows", "indices-as-tuple-then-bad-row", "df")(lambda c: c.df.write_rows([GOODROW, (1,)], (0, 1)))
 fault("DataFrame.write_cell", "negative-row-below-first", "df")(lambda c: c.df.write_cell(1, position=(-len(c.df) - 1, 0)))
+# hundreds of rows in one call, the invalid one far behind any batch size
+fault("DataFrame.append_rows", "600-rows-row-555-too-long", "df")(lambda c: c.df.append_rows([GOODROW] * 555 + [(1, "x", 2.0, 3)] + [GOODROW] * 44))
+fault("DataFrame.append_rows", "600-rows-row-300-ill-typed", "df")(lambda c: c.df.append_rows([GOODROW] * 300 + [("x", "y", "z")] + [GOODROW] * 299))
 fault("DataFrame.write_column", "single-entry-column", "df")(lambda c: c.df.write_column([9], name=c.df.column_names[0]))
 fault("DataFrame.write_column", "single-entry-column-by-index", "df")(lambda c: c.df.write_column([9], index=0))
 fault("DataFrame.write_column", "empty-column", "df")(lambda c: c.df.write_column([], name=c.df.column_names[0]))
@@ -281,7 +290,7 @@ fault("DataFrame.append_column", "ill-typed-with-declared-type", "df")(lambda c:
 
 def state_list(tier):
     states = [{"seed": "empty", "ops": []}, {"seed": "block", "ops": []}, {"seed": "mini", "ops": []}, {"seed": "rich", "ops": []},
-              {"seed": "mini+autonames", "ops": []}]
+              {"seed": "mini+autonames", "ops": []}, {"seed": "mini+dims9", "ops": []}]
     for h in explorer.enumerate_histories("mini", 1, THIN):
         if h[-1][0] != "reopen":
             states.append({"seed": "mini", "ops": h})
